@@ -322,7 +322,16 @@ class Ctx:
         try:
             t = ty.encode(v, self)
         except VAL.EncodeError as e:
-            raise Unsupported('value %r does not fit the declared type of field %r' % (v, field))
+            if isinstance(v, VUnion):
+                # e.g. an Optional parameter after `if x is None: x = default`: the path condition has settled which
+                # alternative it is; pick it (forks only if it has not)
+                v = self.force(v, 'narrow:' + field)
+                try:
+                    t = ty.encode(v, self)
+                except VAL.EncodeError:
+                    raise Unsupported('value %r does not fit the declared type of field %r' % (v, field))
+            else:
+                raise Unsupported('value %r does not fit the declared type of field %r' % (v, field))
         self.heap[field] = z3.Store(self.field_array(field), ref, t)
 
     def new_object(self, clsname):
